@@ -30,7 +30,7 @@ fn patch(bytes: &mut [u8], map: &FieldMap, suffix: &str, which: u64, value: u64)
 const U16_BOUNDARY: [u16; 16] = [0, 1, 2, 3, 4, 7, 9, 15, 17, 24, 31, 33, 64, 0x7fff, 0x8000, 0xffff];
 
 pub fn run(ctx: &Ctx) -> i32 {
-    let n = ctx.tier.pick(40_000u64, 800_000u64);
+    let n = ctx.tier.pick(120_000u64, 2_000_000u64);
     let sum = run_cases(ctx, n, |i| {
         let mut rng = Rng::derive(ctx.seed, "C15", i);
         let mut cfg = GenCfg::tiny();
